@@ -1,6 +1,7 @@
 import Qwt.Spec.Basic
 import Qwt.Model.Codec
 import Qwt.Model.Space
+import Qwt.Model.Iter
 
 /-! Line-protocol driver: one request per line on stdin, one answer per line on stdout.
 For queries the answer is `<model outcome>|<spec outcome>`. -/
@@ -65,32 +66,16 @@ def specSelectH (abs : List Nat) (c k : Nat) : String :=
 
 def specGet (abs : List Nat) (i : Nat) : String := optS abs[i]?
 
-/-- deque semantics of a double-ended iterator under a history of calls
-    `n` = next, `b` = next_back, `l` = len -/
-def specIterHist (abs : List Nat) (ops : List Char) : List String :=
-  let rec go : List Char → List Nat → List String → List String
-    | [], _, acc => acc.reverse
-    | 'n' :: r, rem, acc => (match rem with
-        | [] => go r [] ("N" :: acc)
-        | x :: xs => go r xs (s!"S:{x}" :: acc))
-    | 'b' :: r, rem, acc => (match rem.getLast? with
-        | none => go r [] ("N" :: acc)
-        | some x => go r rem.dropLast (s!"S:{x}" :: acc))
-    | _ :: r, rem, acc => go r rem (s!"V:{rem.length}" :: acc)
-  go ops abs []
+def opsOf (cs : List Char) : List Iter.IterOp :=
+  cs.map (fun c => if c == 'n' then .next else if c == 'b' then .nextBack else .len)
 
-/-- the `WTIterator` state machine over a `get_unchecked` function -/
+/-- deque semantics (specification) of a history of iterator calls -/
+def specIterHist (abs : List Nat) (ops : List Char) : List String :=
+  (Iter.specRun abs (opsOf ops)).map Out.render
+
+/-- the `WTIterator` state machine (model) over a `get_unchecked` function -/
 def modelIterHist (getU : Nat → M Nat) (n : Nat) (ops : List Char) : List String :=
-  let rec go : List Char → Nat → Nat → List String → List String
-    | [], _, _, acc => acc.reverse
-    | 'n' :: r, i, e, acc =>
-      if i < e then go r (i + 1) e ((Out.ofOpt ((getU i).map some)).render :: acc)
-      else go r i e ("N" :: acc)
-    | 'b' :: r, i, e, acc =>
-      if i < e then go r i (e - 1) ((Out.ofOpt ((getU (e - 1)).map some)).render :: acc)
-      else go r i e ("N" :: acc)
-    | _ :: r, i, e, acc => go r i e ((Out.ofVal (sub e i)).render :: acc)
-  go ops 0 n []
+  (Iter.run getU { i := 0, e := n } (opsOf ops)).map Out.render
 
 def isOk : M α → Bool
   | .ok _ => true
